@@ -1,5 +1,5 @@
 #!/venv/bin/python
-"""Fail-closed translator: arithmetic core of PageHinkley.update / DDM.update / EDDM.update  ->  Gallina, generic in N : Num.
+"""Fail-closed translator: arithmetic core of PageHinkley / DDM / EDDM / STEPD / CUSUM .update  ->  Gallina, generic in N : Num.
 
 For each configured class the statements of `update` that FOLLOW the unique top-level `super().update(...)` call (the
 "slice"; what precedes it - reset after a drift, input validation, the counters that super().update increments - is the
@@ -12,7 +12,15 @@ generic machine coq/Lifecycle.v and is not translated) become one Coq function
   * second component: what the slice assigns to `self.drift_state` (Some DDrift / Some DWarn / Some DNone), None when
     no assignment is executed - exactly the `od` that Lifecycle.update expects from a kernel's step_e;
   * third component ("bound"): false iff the slice reads a local variable on a path that has not assigned it (Python
-    raises UnboundLocalError there; the Coq value of such a read is a default and must not be relied upon).
+    raises UnboundLocalError there; the Coq value of such a read is a default and must not be relied upon).  For the
+    list / None / int-division constructs (STEPD, CUSUM) the same flag also becomes false when a list index is out of
+    range (IndexError), a possibly-None attribute is used as a number (TypeError) or an int/int true division has a
+    zero divisor (ZeroDivisionError);
+  * classes configured with `raises` (CUSUM): a fourth component, true iff an explicit `raise` statement was reached
+    (the first three components are then the values at the `raise`);
+  * classes configured with `reset_slice` (CUSUM): a second function <Class>_reset_core (<parameters>) (st) :
+    <state tuple> * bool, the statements that the `if self.drift_state == "drift":` prologue executes before and
+    inside `self.reset()` (re-estimation + reset of the class's own attributes).
 
 Canonical form: a let-chain in source order; `x = e` is `let x := e in`; an `if` without `return` inside is
 `let '(v1, .., vk) := if c then .. else .. in` over the variables it assigns that are still needed (one variable:
@@ -25,7 +33,8 @@ Anything outside the fragment raises Unsupported (exit code 3): the caller then 
 usage: py2coq_scalar.py <repo root> <out.v> [Class ...]     (default: all configured classes)
        exit 0 = written, 3 = unsupported construct (message on stderr)
 """
-import ast, os, sys
+import ast, copy, os, re, sys
+from fractions import Fraction
 
 # ------------------------------------------------------------------------------------------------------------------
 # CONFIG (trusted): what each attribute / input is.  Types: "float" (F N), "int" (Z), "str" (string),
@@ -44,6 +53,20 @@ import ast, os, sys
 #   history   list attributes that only record what was computed: `self.<h>.append(<call-free expr>)` is skipped
 #   lifecycle zero-argument `self.<m>()` calls that belong to the lifecycle machine (retraining_recs): skipped, as is
 #             an `if <call-free test>:` whose whole body consists of skipped statements
+# Further types (STEPD / CUSUM): "intlist" (list Z), "floatlist" (list (F N)), "optstr" (option string: None or a str).
+#   oracles   [(kind, coq name)]: kind "norm_sf" = the value of `1 - <...>norm.cdf(x[, 0, 1])` / `<...>norm.sf(x[, 0, 1])`
+#             (standard normal upper tail, scipy) is an ORACLE INPUT of the translated function: exactly one such call
+#             site must occur in the slice; its argument x must be a float expression of the fragment but is NOT part
+#             of the translated function - that the oracle is asked about the right statistic is the business of the
+#             correspondence check (which recomputes the p-value from the model's statistic)
+#   helpers   zero-argument methods of the class that only compute a number from the attributes (`x = self.<h>()` as a
+#             whole right-hand side): their bodies are translated in place
+#   small_ints  True: every int that takes part in a true division is a counter below 2**53, so that Python's
+#             correctly rounded int / int quotient IS fdiv of the two conversions (refused without this flag)
+#   raises    exception class names whose explicit `raise` is a terminal statement reported by a 4th result component
+#   reset_slice  {"method": "reset"}: update() must START with `if self.drift_state == "drift": <stmts>; self.reset()`;
+#             <stmts> followed by the statements of the class's own reset() (around its `super().reset()`, which belongs
+#             to the lifecycle machine) become <Class>_reset_core
 # ------------------------------------------------------------------------------------------------------------------
 CONFIGS = {
     "PageHinkley": dict(
@@ -75,11 +98,44 @@ CONFIGS = {
         history=[],
         lifecycle=["_increment_retraining_recs", "_initialize_retraining_recs"],
     ),
+    # STEPD: state (s, r, window, statistic, p-value); input (prediction correct?, oracle value of 1 - norm.cdf(statistic)).
+    # The ARGUMENT of the scipy call is not compared by this tie (see `oracles` above).
+    "STEPD": dict(
+        file="menelaus/concept_drift/stepd.py", method="update",
+        params=[("window_size", "int"), ("alpha_warning", "float"), ("alpha_drift", "float")],
+        counter="samples_since_reset",
+        state=[("_s", "int"), ("_r", "int"), ("_window", "intlist"), ("_test_statistic", "optfloat"), ("_test_p", "optfloat")],
+        input=("labels", "y_true", "y_pred"),
+        oracles=[("norm_sf", "oracle_p")],
+        helpers=["recent_accuracy", "past_accuracy", "overall_accuracy"],
+        small_ints=True,
+        history=[],
+        lifecycle=["_increment_retraining_recs", "_initialize_retraining_recs"],
+        runtime="lists",
+    ),
+    # CUSUM: target / sd_hat are constructor arguments AND state (None until estimated); _upper_bound / _lower_bound /
+    # _stream are Python lists in Python order (oldest first); X is read as one double; np.mean / np.std of a list are
+    # the MODELLED functions np_mean / np_std of coq/Pairwise.v (numpy's pairwise summation), not oracles.
+    "CUSUM": dict(
+        file="menelaus/change_detection/cusum.py", method="update",
+        params=[("burn_in", "int"), ("delta", "float"), ("threshold", "float"), ("direction", "optstr")],
+        counter="samples_since_reset",
+        state=[("target", "optfloat"), ("sd_hat", "optfloat"), ("_upper_bound", "floatlist"), ("_lower_bound", "floatlist"),
+               ("_stream", "floatlist")],
+        input=("float", "X"),
+        history=[],
+        lifecycle=[],
+        raises=["ValueError"],
+        reset_slice=dict(method="reset"),
+        runtime="lists",
+    ),
 }
 
 STATE = {"drift": "DDrift", "warning": "DWarn", None: "DNone"}
-COQTY = {"float": "F N", "int": "Z", "str": "string", "optfloat": "option (F N)", "bool": "bool", "bit": "bool"}
-DEFAULT = {"float": "f0", "int": "0%Z", "bool": "false", "bit": "false"}
+COQTY = {"float": "F N", "int": "Z", "str": "string", "optfloat": "option (F N)", "bool": "bool", "bit": "bool",
+         "intlist": "list Z", "floatlist": "list (F N)", "optstr": "option string"}
+DEFAULT = {"float": "f0", "int": "0%Z", "bool": "false", "bit": "false", "intlist": "[]", "floatlist": "[]"}
+LISTEL = {"intlist": "int", "floatlist": "float"}
 
 PREAMBLE = """From Coq Require Import String.
 From MV Require Import Base Num.
@@ -90,13 +146,35 @@ Definition py_bit {N : Num} (b : bool) : F N := if b then f1 else f0.
 Definition py_bitZ (b : bool) : Z := if b then 1%Z else 0%Z.
 """
 
+# run-time vocabulary of the classes with `runtime="lists"` (emitted only when such a class is translated)
+PREAMBLE_LISTS = """
+From MV Require Import Pairwise.
+(** Python lists are Coq lists in Python order; [None]-able attributes are options *)
+Definition py_len {A} (l : list A) : Z := Z.of_nat (length l).
+(** l[i]: a negative index counts from the end; [py_idx_ok] = Python raises no IndexError *)
+Definition py_idx_ok {A} (l : list A) (i : Z) : bool := ((- py_len l) <=? i)%Z && (i <? py_len l)%Z.
+Definition py_get {A} (d : A) (l : list A) (i : Z) : A :=
+  nth (Z.to_nat (if (i <? 0)%Z then (i + py_len l)%Z else i)) l d.
+(** l[a:] *)
+Definition py_from {A} (l : list A) (a : Z) : list A :=
+  skipn (Z.to_nat (if (a <? 0)%Z then Z.max (py_len l + a) 0 else a)) l.
+(** x is None *)
+Definition py_none {A} (o : option A) : bool := match o with None => true | Some _ => false end.
+(** a possibly-None attribute used as a number (the use is guarded by [negb (py_none o)] in the third component) *)
+Definition py_ofloat {N : Num} (o : option (F N)) : F N := match o with Some v => v | None => f0 end.
+(** o == c for a possibly-None o and a number c (None == c is False) *)
+Definition py_oeqb {N : Num} (o : option (F N)) (c : F N) : bool := match o with Some v => feqb v c | None => false end.
+(** o == "literal" for a possibly-None string *)
+Definition py_ostr_eqb (o : option string) (s : string) : bool := match o with Some t => String.eqb t s | None => false end.
+"""
+
 
 class Unsupported(Exception):
     pass
 
 
 class Restart(Exception):
-    """a local turned out to need a definedness flag: translate again"""
+    """a local turned out to need a definedness flag (or a float type): translate again"""
 
 
 def fail(node, why):
@@ -114,8 +192,25 @@ def is_super_call(st, name):
             and isinstance(st.value.func.value.func, ast.Name) and st.value.func.value.func.id == "super")
 
 
+def is_docstring(st):
+    return isinstance(st, ast.Expr) and isinstance(st.value, ast.Constant) and isinstance(st.value.value, str)
+
+
 def call_free(e):
     return not any(isinstance(n, (ast.Call, ast.Await, ast.Yield, ast.YieldFrom, ast.NamedExpr, ast.Lambda)) for n in ast.walk(e))
+
+
+def norm_call(c):
+    """`<...>norm.<attr>(...)` (scipy.stats.norm.cdf, stats.norm.sf, norm.cdf ...): the attribute name, else None"""
+    if isinstance(c, ast.Call) and isinstance(c.func, ast.Attribute):
+        v = c.func.value
+        if (isinstance(v, ast.Attribute) and v.attr == "norm") or (isinstance(v, ast.Name) and v.id == "norm"):
+            return c.func.attr
+    return None
+
+
+def is_one(e):
+    return isinstance(e, ast.Constant) and type(e.value) in (int, float) and e.value == 1
 
 
 class Env:
@@ -130,8 +225,8 @@ class Env:
 
 
 class Core:
-    def __init__(self, cname, cfg, module, fn):
-        self.cname, self.cfg, self.fn = cname, cfg, fn
+    def __init__(self, cname, cfg, module, cls, fn):
+        self.cname, self.cfg, self.cls, self.fn = cname, cfg, cls, fn
         self.params = dict(cfg["params"])
         self.state = dict(cfg["state"])
         self.state_order = [a for a, _ in cfg["state"]]
@@ -140,9 +235,30 @@ class Core:
                          if a.name in ("numpy", "math")}
         self.ltypes = {}                       # local -> type
         self.flagged = set()                   # locals that need a definedness flag
+        self.promote = set()                   # locals holding an int literal on one path and a float on another: floats
         self.labels = ()
         self.inputs = []                       # (coq name, coq type)
+        self.mode = "step"                     # "step": the slice after super().update; "reset": the reset slice
+        self.helper_locals = None              # inside a helper method: the (renamed) locals of that method
+        self.oracles = dict(cfg.get("oracles", []))
+        self.reset_stmts = None
         self.slice = self.find_slice()
+
+    def attr_type(self, a):
+        return self.params.get(a) or self.state.get(a)
+
+    def need_rt(self, node, what):
+        if not self.cfg.get("runtime"):
+            fail(node, f"{what} (only for classes configured with the list / None run-time vocabulary)")
+
+    def method(self, name, node):
+        fns = [f for f in self.cls.body if isinstance(f, ast.FunctionDef) and f.name == name]
+        if len(fns) != 1 or fns[0].decorator_list:
+            fail(node, f"method {name} of the class not found exactly once (undecorated)")
+        a = fns[0].args
+        if [x.arg for x in a.args] != ["self"] or a.vararg or a.kwarg or a.kwonlyargs or a.posonlyargs:
+            fail(fns[0], f"method {name} takes arguments")
+        return fns[0]
 
     # ---------------------------------------------------------------- slice
     def find_slice(self):
@@ -151,6 +267,28 @@ class Core:
         if len(idx) != 1:
             fail(self.fn, f"expected exactly one top-level `super().{self.cfg['method']}(...)` statement, found {len(idx)}")
         pro, sl = body[:idx[0]], body[idx[0] + 1:]
+        if self.cfg.get("reset_slice"):
+            # update() starts with `if self.drift_state == "drift": <stmts>; self.reset()`
+            k = next((i for i, st in enumerate(pro) if not is_docstring(st)), None)
+            st = pro[k] if k is not None else None
+            t = st.test if isinstance(st, ast.If) else None
+            ok = (isinstance(t, ast.Compare) and len(t.ops) == 1 and isinstance(t.ops[0], ast.Eq) and is_self_attr(t.left)
+                  and t.left.attr == "drift_state" and isinstance(t.comparators[0], ast.Constant)
+                  and t.comparators[0].value == "drift" and not st.orelse and st.body)
+            rname = self.cfg["reset_slice"]["method"]
+            if ok:
+                c = st.body[-1]
+                ok = (isinstance(c, ast.Expr) and isinstance(c.value, ast.Call) and is_self_attr(c.value.func)
+                      and c.value.func.attr == rname and not c.value.args and not c.value.keywords)
+            if not ok:
+                fail(st or self.fn, f'update() must start with `if self.drift_state == "drift": ...; self.{rname}()`')
+            rm = self.method(rname, st)
+            rbody = [x for x in rm.body if not is_docstring(x)]
+            ridx = [i for i, x in enumerate(rbody) if is_super_call(x, rname)]
+            if len(ridx) != 1:
+                fail(rm, f"expected exactly one top-level `super().{rname}()` statement in {rname}(), found {len(ridx)}")
+            self.reset_stmts = st.body[:-1] + rbody[:ridx[0]] + rbody[ridx[0] + 1:]
+            pro = pro[:k] + pro[k + 1:]
         # the prologue is the lifecycle machine's business, but it must not touch what the slice computes with
         for n in ast.walk(ast.Module(body=pro, type_ignores=[])):
             tg = []
@@ -162,6 +300,9 @@ class Core:
                 for m in ast.walk(t):
                     if is_self_attr(m) and (m.attr in self.state or m.attr in self.params or m.attr == self.counter):
                         fail(n, f"the statements before super().update assign self.{m.attr}")
+            if self.cfg.get("runtime") and isinstance(n, ast.Call) and isinstance(n.func, ast.Attribute) \
+                    and is_self_attr(n.func.value) and n.func.value.attr in self.state:
+                fail(n, f"the statements before super().update call a method of self.{n.func.value.attr}")
         inp = self.cfg["input"]
         if inp[0] == "float":
             args = [a.arg for a in self.fn.args.args]
@@ -188,13 +329,19 @@ class Core:
             self.labels = (a, b)
             self.inputs = [("correct", "bool")]
             self.pre_bound = set()
+        if self.oracles:
+            sites = [n for n in ast.walk(ast.Module(body=sl, type_ignores=[])) if norm_call(n)]
+            if len(sites) != len(self.oracles):
+                fail(sites[1] if len(sites) > 1 else self.fn,
+                     f"expected exactly {len(self.oracles)} call of a method of scipy's `norm` in the slice, found {len(sites)}")
+            self.inputs += [(n, "F N") for _, n in self.cfg["oracles"]]
         return sl
 
     # ---------------------------------------------------------------- skipped statement shapes
     def skipped(self, st):
         if isinstance(st, ast.Pass):
             return True
-        if isinstance(st, ast.Expr) and isinstance(st.value, ast.Constant) and isinstance(st.value.value, str):
+        if is_docstring(st):
             return True                                                     # docstring / bare string
         if isinstance(st, ast.Expr) and isinstance(st.value, ast.Call):
             c = st.value
@@ -209,6 +356,43 @@ class Core:
             return True                                                     # if <test>: <only skipped statements>
         return False
 
+    def list_call(self, c, name, nargs):
+        """`self.<configured list attribute>.<name>(<nargs arguments>)`: the attribute, else None"""
+        if isinstance(c, ast.Call) and isinstance(c.func, ast.Attribute) and c.func.attr == name and is_self_attr(c.func.value) \
+                and self.state.get(c.func.value.attr) in LISTEL and len(c.args) == nargs and not c.keywords:
+            return c.func.value.attr
+        return None
+
+    def norm(self, st):
+        """list-mutating method calls on a configured list attribute, written as the assignments they stand for:
+        `self.l.append(e)` = `self.l = self.l + [e]`;  `[v =] self.l.pop(0)` = `v = self.l[0]; self.l = self.l[1:]`
+        (no other reference to these lists exists in the slice, so rebinding and mutation are indistinguishable)"""
+        def mk(src, **holes):
+            node = ast.parse(src).body[0]
+            for n in ast.walk(node):
+                for f, v in ast.iter_fields(n):
+                    if isinstance(v, ast.Name) and v.id in holes:
+                        setattr(n, f, holes[v.id])
+                    elif isinstance(v, list):
+                        for i, x in enumerate(v):
+                            if isinstance(x, ast.Name) and x.id in holes:
+                                v[i] = holes[x.id]
+            for n in ast.walk(node):
+                ast.copy_location(n, st)
+            return node
+        if isinstance(st, ast.Expr):
+            a = self.list_call(st.value, "append", 1)
+            if a:
+                return [mk(f"self.{a} = self.{a} + [HOLE]", HOLE=st.value.args[0])]
+            a = self.list_call(st.value, "pop", 1)
+            if a and isinstance(st.value.args[0], ast.Constant) and st.value.args[0].value == 0 and type(st.value.args[0].value) is int:
+                return [mk(f"pop__{a} = self.{a}[0]"), mk(f"self.{a} = self.{a}[1:]")]
+        if isinstance(st, ast.Assign) and len(st.targets) == 1 and isinstance(st.targets[0], ast.Name):
+            a = self.list_call(st.value, "pop", 1)
+            if a and isinstance(st.value.args[0], ast.Constant) and st.value.args[0].value == 0 and type(st.value.args[0].value) is int:
+                return [mk(f"{st.targets[0].id} = self.{a}[0]"), mk(f"self.{a} = self.{a}[1:]")]
+        return [st]
+
     def strip(self, stmts):
         out = []
         for st in stmts:
@@ -216,13 +400,15 @@ class Core:
                 continue
             if isinstance(st, ast.If):
                 st = ast.copy_location(ast.If(test=st.test, body=self.strip(st.body), orelse=self.strip(st.orelse)), st)
-            out.append(st)
+                out.append(st)
+            else:
+                out += self.norm(st)
         return out
 
     # ---------------------------------------------------------------- syntactic helpers
     @staticmethod
     def has_return(stmts):
-        return any(isinstance(n, ast.Return) for st in stmts for n in ast.walk(st))
+        return any(isinstance(n, (ast.Return, ast.Raise)) for st in stmts for n in ast.walk(st))
 
     def target_key(self, t, node):
         if isinstance(t, ast.Name):
@@ -251,7 +437,7 @@ class Core:
                     if k2 not in out:
                         out.append(k2)
                 continue
-            elif isinstance(st, ast.Return):
+            elif isinstance(st, (ast.Return, ast.Raise)):
                 continue
             else:
                 fail(st, "unsupported statement")
@@ -280,12 +466,27 @@ class Core:
             self.flagged.add(v)
             raise Restart()
 
+    @staticmethod
+    def addg(g, cond):
+        if cond not in g:
+            g.append(cond)
+
     # ---------------------------------------------------------------- expressions: (coq text, type, guards)
+    @staticmethod
+    def is_lit(x):
+        """an int literal (possibly negated) small enough to be converted exactly"""
+        m = re.fullmatch(r"(\d+)%Z|\(- (\d+)%Z\)%Z", x[0]) if x[1] == "int" else None
+        return bool(m) and int(m.group(1) or m.group(2)) < 2 ** 53
+
     def tofloat(self, x, node):
         c, t = x
         if t == "float":
             return c
         if t == "int":
+            if c == "0%Z":
+                return "f0"                     # float(0), float(1): the constants of Num
+            if c == "1%Z":
+                return "f1"
             return f"(fofZ {c})"
         if t == "bit":
             return f"(py_bit {c})"
@@ -299,35 +500,86 @@ class Core:
             return f"(py_bitZ {c})"
         fail(node, f"a {t} where an int is needed")
 
+    def elem(self, x, lty, node):
+        """x as an element of a list of type lty"""
+        if LISTEL[lty] == "int":
+            return self.toint(x, node)
+        if x[1] == "float" or self.is_lit(x) or x[1] == "int":
+            # an int stored in a list of floats (`[0]`, `s_h = 0`) is read back by float operations only
+            return self.tofloat(x, node)
+        fail(node, f"a {x[1]} as an element of a list of floats")
+
+    def lit_list(self, e, lty, env, g):
+        return "[" + "; ".join(self.elem(self.ex(x, env, g), lty, e) for x in e.elts) + "]"
+
+    def oracle_args(self, c, env, g):
+        """the scipy call: first argument a float of the fragment (not translated further), loc = 0, scale = 1"""
+        if not c.args or len(c.args) > 3:
+            fail(c, "arguments of the oracle call")
+        x = self.ex(c.args[0], env, g)
+        if x[1] != "float":
+            fail(c, "the argument of the oracle call is not a float")
+        rest = list(zip(("loc", "scale"), c.args[1:])) + [(k.arg, k.value) for k in c.keywords]
+        if len({k for k, _ in rest}) != len(rest):
+            fail(c, "arguments of the oracle call")
+        for k, v in rest:
+            want = {"loc": 0, "scale": 1}.get(k)
+            if want is None or not (isinstance(v, ast.Constant) and type(v.value) in (int, float) and v.value == want):
+                fail(c, "the oracle is the STANDARD normal upper tail: loc = 0, scale = 1 only")
+
     def ex(self, e, env, g):
-        """g: list collecting the locals read while not definitely bound"""
+        """g: list collecting the conditions under which evaluating e raises no exception (b_<local>: the local is bound)"""
         if isinstance(e, ast.Constant):
             if type(e.value) is int:
                 return (f"({e.value})%Z" if e.value < 0 else f"{e.value}%Z", "int")
+            if type(e.value) is float and self.cfg.get("runtime") and e.value == e.value and abs(e.value) != float("inf"):
+                # a double is m / 2^k exactly: integral values are conversions, the others an exact quotient
+                fr = Fraction(e.value)
+                m, d = fr.numerator, fr.denominator
+                if abs(m) < 2 ** 53 and d <= 2 ** 60 and m >= 0:
+                    num = self.tofloat((f"{m}%Z", "int"), e)
+                    return (num if d == 1 else f"({num} / (fofZ {d}%Z))%num", "float")
             fail(e, "constant (only int literals are numbers of the fragment)")
         if isinstance(e, ast.Name):
             if e.id in self.labels:
                 fail(e, "a label input outside `y_pred == y_true` / `y_pred != y_true`")
+            if self.helper_locals is not None and e.id not in self.helper_locals:
+                fail(e, "read of a name that is not a local of the helper method")
             if e.id not in self.ltypes:
                 fail(e, "read of a name that is not assigned before")
             if e.id not in env.definite:
                 self.need_flag(e.id) if e.id not in self.flagged else None
-                if e.id not in g:
-                    g.append(e.id)
+                self.addg(g, "b_" + e.id)
             return ("v_" + e.id, self.ltypes[e.id])
         if is_self_attr(e):
             a = e.attr
-            if a in self.params:
-                return ("self_" + a, self.params[a])
             if a == self.counter:
+                if self.mode != "step":
+                    fail(e, f"read of self.{a} in the reset slice")
                 return ("self_" + a, "int")
-            if a in self.state:
-                if self.state[a] == "optfloat":
-                    if a in env.known:
-                        return (env.known[a], "float")
+            ty = self.attr_type(a)
+            if ty is None:
+                fail(e, f"read of self.{a}, which the configuration does not describe")
+            if ty == "optfloat":
+                if a in env.known:
+                    return (env.known[a], "float")
+                if not self.cfg.get("runtime"):
                     fail(e, f"read of self.{a}, which may be None here")
-                return ("self_" + a, self.state[a])
-            fail(e, f"read of self.{a}, which the configuration does not describe")
+                self.addg(g, f"(negb (py_none self_{a}))")          # None used as a number: TypeError
+                return (f"(py_ofloat self_{a})", "float")
+            return ("self_" + a, ty)
+        if isinstance(e, ast.Subscript):
+            self.need_rt(e, "subscript")
+            base = self.ex(e.value, env, g)
+            if base[1] not in LISTEL:
+                fail(e, f"subscript of a {base[1]}")
+            if isinstance(e.slice, ast.Slice):
+                if e.slice.lower is None or e.slice.upper is not None or e.slice.step is not None:
+                    fail(e, "slice (only l[a:])")
+                return (f"(py_from {base[0]} {self.toint(self.ex(e.slice.lower, env, g), e)})", base[1])
+            i = self.toint(self.ex(e.slice, env, g), e)
+            self.addg(g, f"(py_idx_ok {base[0]} {i})")                 # IndexError
+            return (f"(py_get {DEFAULT[LISTEL[base[1]]]} {base[0]} {i})", LISTEL[base[1]])
         if isinstance(e, ast.UnaryOp):
             if isinstance(e.op, ast.Not):
                 return (f"(negb {self.truth(e.operand, env, g)})", "bool")
@@ -338,7 +590,27 @@ class Core:
                 return (f"(- {self.toint(x, e)})%Z", "int")
             fail(e, "unary operator")
         if isinstance(e, ast.BinOp):
+            if self.oracles and isinstance(e.op, ast.Sub) and is_one(e.left) and norm_call(e.right) == "cdf" \
+                    and "norm_sf" in self.oracles:
+                self.oracle_args(e.right, env, g)
+                return (self.oracles["norm_sf"], "float")              # 1 - norm.cdf(x): oracle input
+            if isinstance(e.op, ast.Add) and (isinstance(e.left, ast.List) or isinstance(e.right, ast.List)):
+                self.need_rt(e, "list concatenation")
+                if isinstance(e.left, ast.List):
+                    fail(e, "list literal on the left of +")
+                x = self.ex(e.left, env, g)
+                if x[1] not in LISTEL:
+                    fail(e, f"a {x[1]} + a list")
+                return (f"({x[0]} ++ {self.lit_list(e.right, x[1], env, g)})", x[1])
             x, y = self.ex(e.left, env, g), self.ex(e.right, env, g)          # Python evaluates left to right
+            if x[1] in LISTEL or y[1] in LISTEL:
+                if isinstance(e.op, ast.Add) and x[1] == y[1]:
+                    return (f"({x[0]} ++ {y[0]})", x[1])
+                fail(e, "operator on lists")
+            if isinstance(e.op, (ast.BitAnd, ast.BitOr)):
+                if x[1] != "bool" or y[1] != "bool":
+                    fail(e, "& / | of values that are not bools")
+                return (f"({x[0]} {'&&' if isinstance(e.op, ast.BitAnd) else '||'} {y[0]})", "bool")   # both operands evaluated
             isf = "float" in (x[1], y[1])
             if isinstance(e.op, (ast.Add, ast.Sub, ast.Mult)):
                 s = {ast.Add: "+", ast.Sub: "-", ast.Mult: "*"}[type(e.op)]
@@ -347,7 +619,10 @@ class Core:
                 return (f"({self.toint(x, e)} {s} {self.toint(y, e)})%Z", "int")
             if isinstance(e.op, ast.Div):
                 if not isf:
-                    fail(e, "true division of two ints (correctly rounded exact quotient: not fdiv of the conversions in general)")
+                    if not self.cfg.get("small_ints"):
+                        fail(e, "true division of two ints (correctly rounded exact quotient: not fdiv of the conversions in general)")
+                    # ints below 2**53 (configuration): the correctly rounded quotient is fdiv of the exact conversions
+                    self.addg(g, f"(negb ({self.toint(y, e)} =? 0)%Z)")    # ZeroDivisionError
                 return (f"({self.tofloat(x, e)} / {self.tofloat(y, e)})%num", "float")
             if isinstance(e.op, ast.FloorDiv) and not isf:
                 return (f"({self.toint(x, e)} / {self.toint(y, e)})%Z", "int")
@@ -362,14 +637,34 @@ class Core:
                 if isinstance(op, ast.NotEq):
                     return ("(negb correct)", "bool")
                 fail(e, "comparison of the labels other than == / !=")
+            if isinstance(op, (ast.Is, ast.IsNot)):
+                self.need_rt(e, "is / is not")
+                if isinstance(b, ast.Constant) and b.value is None and is_self_attr(a) \
+                        and self.attr_type(a.attr) in ("optfloat", "optstr"):
+                    t = f"(py_none self_{a.attr})"
+                    return (t if isinstance(op, ast.Is) else f"(negb {t})", "bool")
+                fail(e, "is / is not (only `self.<optional attribute> is [not] None`)")
             if isinstance(b, ast.Constant) and isinstance(b.value, str):
                 x = self.ex(a, env, g)
-                if x[1] != "str" or not isinstance(op, (ast.Eq, ast.NotEq)) or '"' in b.value or "\\" in b.value \
+                if x[1] not in ("str", "optstr") or not isinstance(op, (ast.Eq, ast.NotEq)) or '"' in b.value or "\\" in b.value \
                         or not b.value.isascii():
                     fail(e, "string comparison")
-                t = f'(String.eqb {x[0]} "{b.value}"%string)'
+                t = f'({"String.eqb" if x[1] == "str" else "py_ostr_eqb"} {x[0]} "{b.value}"%string)'
+                return (t if isinstance(op, ast.Eq) else f"(negb {t})", "bool")
+            if isinstance(op, (ast.Eq, ast.NotEq)) and is_self_attr(a) and self.attr_type(a.attr) == "optfloat" \
+                    and a.attr not in env.known and self.cfg.get("runtime"):
+                y = self.ex(b, env, g)                                   # None == number is False, no exception
+                if not (y[1] == "float" or self.is_lit(y)):
+                    fail(e, f"comparison of a possibly-None float with a {y[1]}")
+                t = f"(py_oeqb self_{a.attr} {self.tofloat(y, e)})"
                 return (t if isinstance(op, ast.Eq) else f"(negb {t})", "bool")
             x, y = self.ex(a, env, g), self.ex(b, env, g)
+            if self.cfg.get("runtime"):
+                # an int LITERAL is compared with a float as its exact conversion
+                if x[1] == "float" and self.is_lit(y):
+                    y = (self.tofloat(y, e), "float")
+                elif y[1] == "float" and self.is_lit(x):
+                    x = (self.tofloat(x, e), "float")
             if x[1] == "float" and y[1] == "float":
                 p, q = x[0], y[0]
                 t = {ast.Lt: f"({p} <? {q})%num", ast.LtE: f"({p} <=? {q})%num", ast.Gt: f"({q} <? {p})%num",
@@ -389,15 +684,33 @@ class Core:
             # the flag can only become false more often)
             return ("(" + (" && " if isinstance(e.op, ast.And) else " || ").join(c for c, _ in vs) + ")", "bool")
         if isinstance(e, ast.Call):
+            if self.oracles and norm_call(e) == "sf" and "norm_sf" in self.oracles:
+                self.oracle_args(e, env, g)
+                return (self.oracles["norm_sf"], "float")              # norm.sf(x): oracle input
             if e.keywords:
                 fail(e, "keyword arguments")
             f = e.func
-            if isinstance(f, ast.Attribute) and f.attr == "sqrt" and isinstance(f.value, ast.Name) and f.value.id in self.np_alias \
-                    and len(e.args) == 1:
+            isnp = isinstance(f, ast.Attribute) and isinstance(f.value, ast.Name) and f.value.id in self.np_alias and len(e.args) == 1
+            if isnp and f.attr == "sqrt":
                 x = self.ex(e.args[0], env, g)
                 if x[1] != "float":
                     fail(e, "sqrt of something that is not a float")
                 return (f"(fsqrt {x[0]})", "float")
+            if isnp and f.attr in ("absolute", "abs", "fabs") and self.cfg.get("runtime"):
+                x = self.ex(e.args[0], env, g)
+                if x[1] != "float":
+                    fail(e, "absolute value of something that is not a float")
+                return (f"(fabs {x[0]})", "float")
+            if isnp and f.attr in ("mean", "std") and self.cfg.get("runtime"):
+                x = self.ex(e.args[0], env, g)
+                if x[1] != "floatlist":
+                    fail(e, f"np.{f.attr} of something that is not a list of floats")
+                return (f"(np_{f.attr} {x[0]})", "float")               # coq/Pairwise.v: numpy's pairwise summation
+            if isinstance(f, ast.Name) and f.id == "len" and len(e.args) == 1 and self.cfg.get("runtime"):
+                x = self.ex(e.args[0], env, g)
+                if x[1] not in LISTEL:
+                    fail(e, f"len of a {x[1]}")
+                return (f"(py_len {x[0]})", "int")
             if isinstance(f, ast.Name) and f.id == "int" and len(e.args) == 1:
                 x = self.ex(e.args[0], env, g)
                 if x[1] == "bool":
@@ -410,6 +723,12 @@ class Core:
                 return (self.tofloat(x, e), "float")
             if isinstance(f, ast.Name) and f.id in ("max", "min") and len(e.args) == 2:
                 x, y = self.ex(e.args[0], env, g), self.ex(e.args[1], env, g)
+                if self.cfg.get("runtime"):
+                    # max(0, y): the int literal is returned when y does not exceed it and is then used as a float
+                    if self.is_lit(x) and y[1] == "float":
+                        x = (self.tofloat(x, e), "float")
+                    elif self.is_lit(y) and x[1] == "float":
+                        y = (self.tofloat(y, e), "float")
                 if x[1] != "float" or y[1] != "float":
                     fail(e, "max / min of values that are not both floats")
                 return (f"(py{f.id} {x[0]} {y[0]})", "float")
@@ -435,7 +754,7 @@ class Core:
     # ---------------------------------------------------------------- statements
     def guards(self, g, pad):
         self.nguards += len(g)
-        return "".join(f"{pad}let ok__ := ok__ && b_{v} in\n" for v in g)
+        return "".join(f"{pad}let ok__ := ok__ && {v} in\n" for v in g)
 
     def tuple_of(self, keys):
         return "(" + ", ".join(self.cv(k) for k in keys) + ")" if len(keys) != 1 else self.cv(keys[0])
@@ -449,11 +768,20 @@ class Core:
             return pad + (self.result() if term is None else self.tuple_of(term))
         st, rest = stmts[0], stmts[1:]
         if isinstance(st, ast.Return):
-            if term is not None:
-                fail(st, "internal: return inside a merged branch")
+            if term is not None or self.mode != "step":
+                fail(st, "internal: return inside a merged branch" if self.mode == "step" else "return in the reset slice")
             if st.value is not None and not (isinstance(st.value, ast.Constant) and st.value.value is None):
                 fail(st, "return of a value")
             return pad + self.result()
+        if isinstance(st, ast.Raise):
+            if term is not None or self.mode != "step":
+                fail(st, "internal: raise inside a merged branch" if self.mode == "step" else "raise in the reset slice")
+            x = st.exc.func if isinstance(st.exc, ast.Call) else st.exc
+            if not (isinstance(x, ast.Name) and x.id in self.cfg.get("raises", [])) or st.cause is not None:
+                fail(st, "raise (only the exception classes listed in the configuration)")
+            if isinstance(st.exc, ast.Call) and not all(isinstance(a, ast.Constant) for a in st.exc.args + [k.value for k in st.exc.keywords]):
+                fail(st, "raise with computed arguments")
+            return pad + self.result(exc="true")
         if isinstance(st, (ast.Assign, ast.AugAssign)):
             return self.assign(st, rest, env, term, live, ind)
         if isinstance(st, ast.If):
@@ -527,6 +855,37 @@ class Core:
             if k[0] == "a":
                 env.known.pop(k[1], None)      # the value variable bound inside a branch is not visible after it
 
+    def helper(self, call, env, ind):
+        """`self.<helper>()`: the body of the helper method, translated in place as an expression.  The method may only
+        compute: locals (renamed <helper>__<name>), reads of attributes (their values at the call), one final `return e`."""
+        name = call.func.attr
+        fn = self.method(name, call)
+        body = [copy.deepcopy(s) for s in fn.body if not is_docstring(s)]
+        if not body or not isinstance(body[-1], ast.Return) or body[-1].value is None or self.has_return(body[:-1]):
+            fail(fn, f"helper method {name}: the body must end with its only `return <expression>`")
+        pref = name + "__"
+        stored = {n.id for s in body for n in ast.walk(s) if isinstance(n, ast.Name) and isinstance(n.ctx, ast.Store)}
+        for s in body:
+            for n in ast.walk(s):
+                if isinstance(n, ast.Name) and n.id in stored:
+                    n.id = pref + n.id
+        ret = ast.copy_location(ast.Assign(targets=[ast.Name(id=pref + "ret", ctx=ast.Store())], value=body[-1].value), body[-1])
+        stmts = self.strip(body[:-1]) + [ret]
+        if any(k[0] != "l" for k in self.assigned(stmts)):
+            fail(fn, f"helper method {name} assigns an attribute")
+        if self.helper_locals is not None:
+            fail(call, "helper method called from a helper method")
+        self.helper_locals = {pref + v for v in stored} | {pref + "ret"}
+        try:
+            for mk in ([("l", pref + "ret")], [("l", pref + "ret"), ("o", "")]):
+                n0 = self.nguards
+                t = self.block(stmts, Env(set(), env.known), mk, {pref + "ret"}, ind + 1)
+                if self.nguards == n0:
+                    break
+        finally:
+            self.helper_locals = None
+        return t, (len(mk) == 2), self.ltypes[pref + "ret"]
+
     def assign(self, st, rest, env, term, live, ind):
         pad = "  " * ind
         aug = isinstance(st, ast.AugAssign)
@@ -536,29 +895,52 @@ class Core:
         key = self.target_key(tgt, st)
         g = []
         if key[0] == "d":
+            if self.mode != "step":
+                fail(st, "assignment to drift_state in the reset slice")
             if aug or not isinstance(st.value, ast.Constant) or st.value.value not in STATE or isinstance(st.value.value, bool):
                 fail(st, 'drift_state may only be assigned "drift", "warning" or None')
             if not rest and term == [key]:
                 return f"{pad}Some {STATE[st.value.value]}"
             return f"{pad}let ds__ := Some {STATE[st.value.value]} in\n" + self.block(rest, env, term, live, ind)
-        if aug:
+        hcall = (not aug and isinstance(st.value, ast.Call) and is_self_attr(st.value.func)
+                 and st.value.func.attr in self.cfg.get("helpers", []) and not st.value.args and not st.value.keywords)
+        if hcall:
+            if key[0] != "l":
+                fail(st, "a helper method call may only be assigned to a local")
+            htext, hok, hty = self.helper(st.value, env, ind)
+            val = (None, hty)
+        elif aug:
             val = self.ex(ast.copy_location(ast.BinOp(left=ast.copy_location(
                 ast.Name(id=tgt.id, ctx=ast.Load()) if isinstance(tgt, ast.Name)
                 else ast.Attribute(value=ast.Name(id="self", ctx=ast.Load()), attr=tgt.attr, ctx=ast.Load()), st),
                 op=st.op, right=st.value), st), env, g)
         elif isinstance(st.value, ast.Constant) and st.value.value is None:
             val = ("None", "none")
+        elif isinstance(st.value, ast.List) and key[0] == "a" and self.state[key[1]] in LISTEL:
+            self.need_rt(st, "list literal")
+            val = (self.lit_list(st.value, self.state[key[1]], env, g), self.state[key[1]])
         else:
             val = self.ex(st.value, env, g)
         head = self.guards(g, pad)
         if key[0] == "l":
+            if key[1] in self.promote and val[1] != "float":
+                # a local that holds a float on another path: an int LITERAL assigned to it is used as that float
+                if hcall or not self.is_lit(val):
+                    fail(st, f"a computed {val[1]} assigned to the local {key[1]}, which holds floats elsewhere")
+                val = (self.tofloat(val, st), "float")
             t = val[1]
-            if t not in ("float", "int", "bool", "bit"):
+            if t not in ("float", "int", "bool", "bit") + (("intlist", "floatlist") if self.cfg.get("runtime") else ()):
                 fail(st, f"local of type {t}")
             if self.ltypes.setdefault(key[1], t) != t:
+                if self.cfg.get("runtime") and {self.ltypes[key[1]], t} == {"int", "float"} and key[1] not in self.promote:
+                    self.promote.add(key[1])
+                    raise Restart()
                 fail(st, f"variable {key[1]} changes type ({self.ltypes[key[1]]} / {t})")
             env.definite.add(key[1])
-            s = head + f"{pad}let v_{key[1]} := {val[0]} in\n"
+            if hcall:
+                s = head + (f"{pad}let '(v_{key[1]}, ok__) :=\n{htext} in\n" if hok else f"{pad}let v_{key[1]} :=\n{htext} in\n")
+            else:
+                s = head + f"{pad}let v_{key[1]} := {val[0]} in\n"
             if key[1] in self.flagged:
                 s += f"{pad}let b_{key[1]} := true in\n"
             return s + self.block(rest, env, term, live, ind)
@@ -581,45 +963,68 @@ class Core:
             if val[1] not in ("int", "bit"):
                 fail(st, f"a {val[1]} assigned to the int attribute self.{a}")
             v = self.toint(val, st)
+        elif ty in LISTEL:
+            if val[1] != ty:
+                fail(st, f"a {val[1]} assigned to the list attribute self.{a} ({ty})")
+            v = val[0]
         else:
             fail(st, f"assignment to the {ty} attribute self.{a}")
         if not rest and term == [key] and not head:
             return f"{pad}{v}"                      # `let x := e in x` written as `e`
         return head + f"{pad}let self_{a} := {v} in\n" + self.block(rest, env, term, live, ind)
 
-    def result(self):
-        return "((" + ", ".join("self_" + a for a in self.state_order) + "), ds__, ok__)"
+    def result(self, exc="false"):
+        st = "(" + ", ".join("self_" + a for a in self.state_order) + ")"
+        if self.mode == "reset":
+            return f"({st}, ok__)"
+        if self.cfg.get("raises"):
+            return f"({st}, ds__, ok__, {exc})"
+        return f"({st}, ds__, ok__)"
 
     # ---------------------------------------------------------------- whole function
-    def emit(self):
-        stmts = self.strip(self.slice)
-        base_types = dict(self.ltypes)
+    def body_of(self, stmts, pre_bound, base_types):
         while True:
             self.ltypes = dict(base_types)
             self.nguards = 0
             try:
-                body = self.block(stmts, Env(self.pre_bound), None, set(), 1)
+                body = self.block(stmts, Env(pre_bound), None, set(), 1)
                 break
             except Restart:
                 continue
+        pre = f"  let '({', '.join('self_' + a for a in self.state_order)}) := st in\n"
+        if self.mode == "step":
+            pre += "  let ds__ := @None dstate in\n"
+        pre += "  let ok__ := true in\n"
+        for v in sorted(self.flagged):
+            if v in self.ltypes:
+                pre += f"  let v_{v} := {DEFAULT[self.ltypes[v]]} in (* unbound until assigned *)\n  let b_{v} := false in\n"
+        return pre + body
+
+    def emit(self):
+        stmts = self.strip(self.slice)
         cfg = self.cfg
+        body = self.body_of(stmts, self.pre_bound, dict(self.ltypes))
         params = "".join(f" (self_{a} : {COQTY[t]})" for a, t in cfg["params"])
         st_ty = " * ".join(COQTY[t] for _, t in cfg["state"])
         inputs = "".join(f" ({n} : {t})" for n, t in self.inputs)
-        pre = f"  let '({', '.join('self_' + a for a in self.state_order)}) := st in\n"
-        pre += "  let ds__ := @None dstate in\n  let ok__ := true in\n"
-        for v in sorted(self.flagged):
-            pre += f"  let v_{v} := {DEFAULT[self.ltypes[v]]} in (* unbound until assigned *)\n  let b_{v} := false in\n"
-        return (f"(* BEGIN {self.cname} *)\n"
-                f"(** {cfg['file']} : {self.cname}.{cfg['method']}, statements after super().{cfg['method']}(...) *)\n"
-                f"Definition {self.cname}_core {{N : Num}}{params} (self_{self.counter} : Z)\n"
-                f"    (st : {st_ty}){inputs}\n    : ({st_ty}) * option dstate * bool :=\n{pre}{body}.\n"
-                f"(* END {self.cname} *)\n")
+        out = (f"(* BEGIN {self.cname} *)\n"
+               f"(** {cfg['file']} : {self.cname}.{cfg['method']}, statements after super().{cfg['method']}(...) *)\n"
+               f"Definition {self.cname}_core {{N : Num}}{params} (self_{self.counter} : Z)\n"
+               f"    (st : {st_ty}){inputs}\n    : ({st_ty}) * option dstate * bool{' * bool' if cfg.get('raises') else ''} :=\n{body}.\n")
+        if self.reset_stmts is not None:
+            self.mode, self.flagged, self.promote = "reset", set(), set()
+            rname = cfg["reset_slice"]["method"]
+            body = self.body_of(self.strip(self.reset_stmts), set(), {})
+            out += (f"\n(** {cfg['file']} : what {self.cname}.{cfg['method']} executes when drift_state == \"drift\": the statements before\n"
+                    f"    self.{rname}(), then those of {self.cname}.{rname}() (its super().{rname}() is the lifecycle machine) *)\n"
+                    f"Definition {self.cname}_reset_core {{N : Num}}{params}\n"
+                    f"    (st : {st_ty})\n    : ({st_ty}) * bool :=\n{body}.\n")
+        return out + f"(* END {self.cname} *)\n"
 
 
 def translate(root, classes):
     out = ["(** GENERATED by tools/py2coq_scalar.py from " + ", ".join(CONFIGS[c]["file"] for c in classes)
-           + " - do not edit. *)", PREAMBLE]
+           + " - do not edit. *)", PREAMBLE + (PREAMBLE_LISTS if any(CONFIGS[c].get("runtime") == "lists" for c in classes) else "")]
     for cname in classes:
         cfg = CONFIGS[cname]
         path = os.path.join(root, cfg["file"])
@@ -634,7 +1039,7 @@ def translate(root, classes):
         if len(fns) != 1 or fns[0].decorator_list:
             raise Unsupported(f"{path}: method {cname}.{cfg['method']} not found exactly once (undecorated)")
         try:
-            out.append(Core(cname, cfg, module, fns[0]).emit())
+            out.append(Core(cname, cfg, module, cls[0], fns[0]).emit())
         except Unsupported as e:
             raise Unsupported(f"{cfg['file']}: {e}")
     return "\n".join(out)
